@@ -110,6 +110,12 @@ type TOT struct {
 	Descs []Desc `json:"descs,omitempty"`
 }
 
+// TDT is the time and date table (table_id 0x70): short form, no CRC_32. The library parses
+// its framing but delivers nothing for it.
+type TDT struct {
+	UTC int64 `json:"utc"`
+}
+
 // Section is one PSI/SI section of the stream model. Exactly one of the table pointers is set.
 type Section struct {
 	Version uint8 `json:"version,omitempty"`
@@ -122,6 +128,7 @@ type Section struct {
 	NIT     *NIT  `json:"nit,omitempty"`
 	EIT     *EIT  `json:"eit,omitempty"`
 	TOT     *TOT  `json:"tot,omitempty"`
+	TDT     *TDT  `json:"tdt,omitempty"`
 }
 
 func (s *Section) Kind() string {
@@ -138,6 +145,8 @@ func (s *Section) Kind() string {
 		return "EIT"
 	case s.TOT != nil:
 		return "TOT"
+	case s.TDT != nil:
+		return "TDT"
 	}
 	return "?"
 }
@@ -160,6 +169,10 @@ func u16(v uint16) []byte { return []byte{byte(v >> 8), byte(v)} }
 
 // Encode renders the section, CRC_32 included.
 func (s *Section) Encode() []byte {
+	if s.TDT != nil {
+		// table_id 0x70, section_syntax_indicator 0, section_length 5, UTC_time; no CRC_32
+		return append([]byte{0x70, 0x70, 0x05}, encTime5(s.TDT.UTC)...)
+	}
 	var tid uint8
 	var ext uint16
 	var body []byte
